@@ -67,6 +67,8 @@ class Spec:
 def build_for(spec, builder):
     src = os.path.join(VERIF, "harness", spec.harness)
     objs = [builder.harness_obj(src, spec.variant)]
+    if "optable" in spec.needs and builder.gen_recorder() not in objs[0].deps:
+        objs[0].deps.append(builder.gen_recorder())
     for e in spec.extra_objs:
         objs.append(builder.harness_obj(os.path.join(VERIF, "harness", e), spec.variant))
     if "shim" in spec.needs:
@@ -77,7 +79,8 @@ def build_for(spec, builder):
                                         needs_repo_headers=False))
     if "optable" in spec.needs:
         o = builder.harness_obj(os.path.join(VERIF, "harness", "common", "optable.cpp"), spec.variant)
-        o.deps.append(builder.gen_recorder())
+        if builder.gen_recorder() not in o.deps:
+            o.deps.append(builder.gen_recorder())
         objs.append(o)
     if "sys" in spec.needs:
         objs.append(builder.harness_obj(os.path.join(VERIF, "harness", "common", "shim_sys.cpp"), spec.variant))
@@ -93,6 +96,11 @@ def build_for(spec, builder):
     if "ref" in spec.needs:
         exe.deps.append(builder.reflib())
     wanted.append(exe)
+    if "makedsp1" in spec.needs:
+        # the repository's own assembler tool, built unmodified as its own executable
+        mk = builder.exe("makedsp1", [builder.repo_obj("makedsp1/main", spec.variant), builder.repo_obj("makedsp1/sha256", spec.variant),
+                                      builder.repo_obj("parser", spec.variant), builder.repo_obj("disassembler", spec.variant)], spec.variant)
+        wanted.append(mk)
     return exe, wanted
 
 
